@@ -163,8 +163,12 @@ def c18(tier):
                max_total_items=8)
     three = dict(max_array=1, max_map=3, max_text=1, max_depth=2, max_total_entries=3, max_total_items=1, map_lens=[3],
                  map_key_kinds=["Integer", "Text"], map_value_kinds=["Integer", "Bytes"])
+    # encode direction ("decode and encode per their definitions"): decode -> encode against the
+    # reference encoder -> decode -> encode, for each of the four types (round 5: an empty-bstr
+    # nonce written as nil was only seen by C07 / C11 before)
+    rt = [_rj("C18", t, tier) for t in ("ClaimsSet", "PartyInfo", "SuppPubInfo", "CoseKdfContext")]
     return [_dj("C18", "ClaimsSet", cl), _dj("C18", "ClaimsSet", three, tag=":three"), _dj("C18", "CoseKdfContext", kdf),
-            _dj("C18", "PartyInfo", sub), _dj("C18", "SuppPubInfo", sub)]
+            _dj("C18", "PartyInfo", sub), _dj("C18", "SuppPubInfo", sub)] + rt
 
 
 def _sj(prop, tname, pol, built=False):
